@@ -322,7 +322,7 @@ func (r *Run) crashMember(c Cmd, f Fault, cx *crashCtx) (fired bool, p *Proc) {
 	post := r.observe()
 	if fired {
 		r.judgeCrash(c, cx, post, what, cls)
-		if p.State != psKilled && p.ExitCode == 0 && cx.clean != nil && strings.HasPrefix(f.Act, "err:") {
+		if p.State != psKilled && p.ExitCode == 0 && cx.clean != nil && (strings.HasPrefix(f.Act, "err:") || strings.HasPrefix(f.Act, "short:") && f.Then == nil) {
 			// reported success although a call failed: then the effect must be there
 			if d := SameObs(cx.clean, post); len(d) > 0 {
 				r.viol("C03", "success-without-effect", c.Op+"|@"+cls, "%s reported success although %s, and the effect is not (fully) there: %s", c.String(), what, strings.Join(d, "; "))
@@ -405,6 +405,10 @@ func enumerateFaults(evs []*Ev, rng *SplitMix, thorough, errors, torn bool) []Fa
 		}
 		if !errors {
 			continue
+		}
+		if isLogWrite(e) && e.Len > 2 {
+			// a kernel-legal short write: the process lives on and must finish the job
+			fs = append(fs, Fault{K: e.K, Act: fmt.Sprintf("short:%d", 1+rng.Intn(e.Len-1)), Op: e.Op, Note: "short write"})
 		}
 		switch {
 		case isLogWrite(e):
